@@ -197,10 +197,31 @@ def run_case(case):
             cov['config']['duplicate/then_delete_%s' % ('original' if victim == src else 'copy' if victim == out_name else 'other')] = 1
         if fam == 'duplicate_alias':
             # in-place mutators applied to the ORIGINAL only, downstream of duplicate
-            kind = rng.choice(['add_field', 'find_replace', 'set_type', 'add_computed', 'delete_fields'])
+            kind = rng.choice(['add_field', 'find_replace', 'set_type', 'add_computed', 'delete_fields', 'nested'])
             cov['config']['alias/' + kind] = 1
             has = dict(fields[src])
-            if kind == 'add_field':
+            if kind == 'nested':
+                # every row carries a nested value; a later step edits it in place on the original only
+                for n_ in names:
+                    fields[n_] = fields[n_] + [('tags', 'array')]
+                    for r_ in tables[n_]:
+                        r_['tags'] = ['t', {'k': [1]}]
+
+                def nest(package):
+                    yield package.pkg
+                    for res in package:
+                        if res.res.name == src:
+                            def it(res=res):
+                                for row in res:
+                                    row['tags'].append('edited')
+                                    row['tags'][1]['k'].append(2)
+                                    yield row
+                            yield it()
+                        else:
+                            yield res
+                steps.append(nest)
+                mut = lambda r: dict(r, tags=['t', {'k': [1, 2]}, 'edited'])       # noqa: E731
+            elif kind == 'add_field':
                 steps.append(d.add_field('extra', 'integer', 5, resources=src))
                 mut = lambda r: dict(r, extra=5)                                   # noqa: E731
             elif kind == 'find_replace' and 'y' in has:
